@@ -520,6 +520,67 @@ def _sort_job(chunk):
     return len(chunk), out
 
 
+def binding_selftest(sc):
+    """Demonstrate that the trace specification is bound to what it is given: a recorded execution that TLC accepts is corrupted in
+    one field at a time (a busy mark, a path number, a stream, a credited fraction, a whole event dropped as if a recorder were
+    missing) and each corruption must be rejected, by a clause that fits.  A corruption that is accepted is a machinery failure."""
+    import copy
+    chk = sc.chk
+    root = os.path.join(sc.work, "selftest")
+    events, info = sysreplay.random_run(root, 4, 2, 8, 11, 5, plan=[("kill", 3, False)])
+    sysdrv.cleanup(root)
+    if info["error"] or not events:
+        chk.machinery(f"self-test run failed: {info['error']}")
+        return
+    base = trace.encode_trace(events)
+    picks = [i for i, e in enumerate(base) if e["ev"] == "Pick"]
+    comps = [i for i, e in enumerate(base) if e["ev"] == "Complete" and e.get("acc")]
+    variants = [("unchanged", base, None)]
+
+    def variant(name, fn, expect):
+        t = copy.deepcopy(base)
+        fn(t)
+        variants.append((name, t, expect))
+    i1 = picks[1]
+
+    def lockbit(t):
+        e = next(k for k, v in enumerate(t[i1]["st"]["lock"]) if v == 0)
+        t[i1]["st"]["lock"][e] = 1
+    variant("a busy mark too many in the state after a pick", lockbit, {"P_Holds", "P_LocksExact", "P_Conserve", "P_ListedAreBusy", "P_LockedList"})
+    variant("the pick reports another path than the one in the slot", lambda t: t[i1]["pns"].__setitem__(0, t[i1]["pns"][0] + 1), {"P_PathsIdle", "P_Holds", "P_Conserve", "P_LockedList"})
+    variant("two jobs with the same move stream", lambda t: t[picks[2]]["fps"].__setitem__(0, t[picks[1]]["fps"][0]), {"P_StreamsFresh", "P_StreamsDistinct"})
+    c1 = comps[0]
+    variant("the new path gets another number", lambda t: t[c1]["new"].__setitem__(0, t[c1]["new"][0] + 7), {"C_Numbering", "C_Live", "C_NewValid", "C_Record"})
+
+    def credit(t):
+        row = next(r for r in t[c1]["dfrac"] if r[1] and any(r[1]))
+        k = next(j for j, v in enumerate(row[1]) if v)
+        row[1][k] += 250000
+    variant("a quarter unit too much credited to one path", credit, {"C_CreditUnit", "C_CreditIsP", "C_RecordFrac", "C_CreditSupport"})
+    variant("a Complete event missing (as if treat_output were not recorded)", lambda t: t.pop(c1), None)
+    res = trace.validate({(4, 2): [v[1] for v in variants]}, procs=1)
+    bad_by_trace = {}
+    for offset, _n, _w, r in res:
+        if not r["ok"]:
+            chk.machinery(f"self-test: trace validation did not consume its batch:\n{r['tail']}")
+            return
+        for ti, _ei, clause in r["bad"]:
+            bad_by_trace.setdefault(offset + ti, set()).add(clause)
+    report = []
+    for k, (name, _t, expect) in enumerate(variants):
+        got = sorted(bad_by_trace.get(k, ()))
+        report.append({"corruption": name, "rejected_by": got})
+        if k == 0:
+            if got:
+                chk.machinery(f"self-test: the uncorrupted recorded execution is rejected by {got}")
+        elif not got:
+            chk.machinery(f"self-test: the trace specification accepted a corrupted execution ({name})")
+        elif expect is not None and not (set(got) & expect):
+            chk.machinery(f"self-test: '{name}' was rejected, but by none of the clauses that concern it ({got})")
+    chk.cov["binding_selftest"] = report
+    print("  binding self-test: " + "; ".join(f"{r['corruption']} -> {', '.join(r['rejected_by'][:3]) or 'accepted'}" for r in report[1:]), flush=True)
+
+
 def liveness_check(chk, work, name, consts, timeout=1500):
     """FairSpec => Progress: under weak fairness of the picks, the completions and the finish, the run ends
     (no state constraint: a constraint could hide a cycle without progress)."""
